@@ -532,7 +532,18 @@ func ruleSlotsOrder(c *Ctx) {
 		anchorFail("ProcessSlots: the slot loop has no test")
 	}
 	guard := false
-	if lc, lp, lop := condCutOf(info, contCond, nil); lc != "" {
+	// (a counter introduced by the loop itself, `for at := start; at < target; at++`, is its start value where the
+	// guard stands)
+	var initDefs map[types.Object]localDef
+	if ia, ok := loop.Init.(*ast.AssignStmt); ok && ia.Tok == token.DEFINE && len(ia.Lhs) == len(ia.Rhs) {
+		initDefs = map[types.Object]localDef{}
+		for i, l := range ia.Lhs {
+			if id, ok := l.(*ast.Ident); ok && info.Defs[id] != nil {
+				initDefs[info.Defs[id]] = localDef{ia.Rhs[i], 0, 1}
+			}
+		}
+	}
+	if lc, lp, lop := condCutOf(info, contCond, initDefs); lc != "" {
 		if contNeg {
 			lop = negOp[lop]
 		}
@@ -782,7 +793,12 @@ func ruleSlotsOrder(c *Ctx) {
 			if _, isVar := o.(*types.Var); !isVar {
 				return true
 			}
-			ast.Inspect(loop.Body, func(m ast.Node) bool {
+			var stepScope ast.Node = loop.Body
+			if loop.Post != nil {
+				// the post statement of the loop is part of every round
+				stepScope = &ast.BlockStmt{List: append(append([]ast.Stmt{}, loop.Body.List...), loop.Post)}
+			}
+			ast.Inspect(stepScope, func(m ast.Node) bool {
 				switch x := m.(type) {
 				case *ast.FuncLit:
 					return false
